@@ -15,6 +15,7 @@ func TestCheck(t *testing.T) {
 	debug.SetGCPercent(400)
 	vlib.Main(t, "C08", func(c *vlib.Ctx) {
 		selfCheckSuffixOrder()
+		selfCheckKeyOrder(append(append(append([]string{"", "z", "a@2", "b@2", "a\x00", "b\x00", "c\x00", "bb\x00"}, c08Probes...), c09Probes...), c09Points...))
 		if c.ReplayPath() != "" {
 			var cs Case
 			if err := c.LoadReplay(&cs); err != nil {
@@ -55,6 +56,17 @@ func selfCheckSuffixOrder() {
 			}
 			if g := testkeys.Comparer.CompareRangeSuffixes([]byte(a), []byte(b)); g != want {
 				panic(fmt.Sprintf("CompareRangeSuffixes(%q,%q)=%d, harness assumes %d", a, b, g, want))
+			}
+		}
+	}
+}
+
+// selfCheckKeyOrder pins the model's own key order to the comparer on every key in use.
+func selfCheckKeyOrder(keys []string) {
+	for _, a := range keys {
+		for _, b := range keys {
+			if g, w := kcmp(a, b), hx.Cmp(a, b); g != w {
+				panic(fmt.Sprintf("kcmp(%q,%q)=%d but testkeys.Compare=%d", a, b, g, w))
 			}
 		}
 	}
